@@ -13,7 +13,7 @@ BASE = dict(
     UsageOn='FALSE', Blur='0', Welcome='"w0"', MsgIds='{"~"}', AddMsgs='<- cAdd1',
     MoodSet='{"~"}', CVs='{"~"}', Malformed='FALSE', AdvanceSteps='{5}', MaxTime='0',
     MaxMsgs='1', MaxUsage='0', MaxDepth='100', WithStop='FALSE', WithCrash='FALSE',
-    WithCrashIn='FALSE', WithFault='FALSE', WithTime='FALSE', Stringified='{}')
+    WithCrashIn='FALSE', WithFault='FALSE', WithTime='FALSE', Stringified='{}', BadMoods='{}')
 
 S3 = '{"s1", "s2", "s3"}'
 INSTANCES = {
@@ -76,19 +76,27 @@ def cfg_text(inst, props, depth=None, extra=None):
 # random-history profiles (harness/mbh/gen.py)
 PROFILES = {
     "mailbox": dict(apps=["a1"], sides=["s1", "s2"], names=["1", "x"], client_mbox=["m1", "m2"],
-                    steps=45, w_stop=0.3, w_crash=0.3, nonstring=0.06),
+                    steps=45, w_stop=0.3, w_crash=0.3, nonstring=0.06, badmood=0.08),
     "fanout": dict(apps=["a1"], sides=["s1", "s2"], names=["1"], client_mbox=["m1"], steps=60,
                    conns=("c1", "c2", "c3", "c4", "c5"), w_stop=0.5, w_crash=0.3, w_connect=5, nonstring=0.06),
     "nameplate": dict(apps=["a1"], sides=["s1", "s2"], names=["1", "2", "x", "y"], client_mbox=["m1"],
                       steps=50),
     "crowd": dict(apps=["a1"], sides=["s1", "s2", "s3", "s4"], names=["1"], client_mbox=["m1"],
                   steps=50, conns=("c1", "c2", "c3", "c4")),
+    # ... and then the server is restarted and every side, and a newcomer, comes back
+    "crowdrestart": dict(apps=["a1"], sides=["s1", "s2", "s3"], names=["1"], client_mbox=["m1"],
+                         steps=30, conns=("c1", "c2", "c3", "c4"), w_stop=0, w_crash=0, final_quiesce=False,
+                         probe_after_restart=True),
     "apps": dict(apps=["a1", "a2", "a3"], sides=["s1", "s2"], names=["1", "x"], client_mbox=["m1"],
                  steps=60, conns=("c1", "c2", "c3", "c4")),
     "time": dict(apps=["a1", "a2"], sides=["s1", "s2"], names=["1"], client_mbox=["m1"], steps=60,
                  w_advance=8, w_fault=1.0, w_stop=0.4),
     "crash": dict(apps=["a1", "a2"], sides=["s1", "s2"], names=["1"], client_mbox=["m1"], steps=45,
                   w_crashin=4.0, w_crash=1.0, w_advance=4, snapshots=True),
+    # short crash-free histories; then, for a few commands, a kill after each durable change and nobody returns
+    "boundaries": dict(apps=["a1", "a2"], sides=["s1", "s2"], names=["1", "x"], client_mbox=["m1"], steps=22,
+                       w_stop=0, w_crash=0, w_advance=3, final_quiesce=False, crash_boundaries=3,
+                       type_weights=dict(claim=4, allocate=2, release=3, close=3, open=2, add=2, list=0)),
     "usage": dict(apps=["a1", "a2"], sides=["s1", "s2", "s3"], names=["1", "x"], client_mbox=["m1"],
                   steps=50, w_advance=5, usage=True),
     "proto": dict(apps=["a1"], sides=["s1", "s2"], names=["1", "x"], client_mbox=["m1"], steps=50,
@@ -99,7 +107,7 @@ PROFILES = {
     # scripted clients: wormhole-like flows (allocate/claim/open/add/release/close) with
     # reconnects, re-sent commands, a second connection of one side, intruders, sweeps, restarts
     "script": dict(scripted=True, apps=["a1"], sides=["s1", "s2", "s3"], names=["1", "x"], client_mbox=["m1"],
-                   steps=70, conns=("c1", "c2", "c3", "c4", "c5"), w_stop=0.5, w_fault=0, nonstring=0.05),
+                   steps=70, conns=("c1", "c2", "c3", "c4", "c5"), w_stop=0.5, w_fault=0, nonstring=0.05, badmood=0.12),
     "script2": dict(scripted=True, apps=["a1", "a2"], sides=["s1", "s2", "s3"], names=["1", "x"], client_mbox=["m1"],
                     steps=70, conns=("c1", "c2", "c3", "c4", "c5"), w_stop=1.0, w_fault=1.0, usage=True),
     "allocfull": dict(apps=["a1"], sides=["s1", "s2"], names=["1", "10", "100"], client_mbox=["m1"],
@@ -132,8 +140,11 @@ PLAN = {
     # causes C07 lists, so a repeated claim must be told the same id until then
     "C03": _p(["C03.a", "C03.b", "C03.c", "C03.d", "C07.a"], [("core", 9, 12), ("apps", 8, 11)], ["core", "apps"],
               ["nameplate", "apps", "crowd", "script", "script2"], ["P03"]),
-    "C05": _p(["C05.a", "C05.b", "C05.c", "C05.keep"], [("core", 9, 12)], ["core"],
-              ["crowd", "mailbox", "script", "script2"], ["P05"]),
+    "C05": dict(_p(["C05.a", "C05.b", "C05.c", "C05.keep"], [("core", 9, 12)], ["core"],
+                   ["crowd", "crowdrestart", "mailbox", "script", "script2"], ["P05"]),
+                # (the F6 witness needs 14 steps: it is replayed on the code and must conform to the
+                #  specification, witnesses/F6.json, instead of being searched for by TLC)
+                witness_mc=[]),
     "C06": _p(["C06.frame"], [("apps", 8, 11)], ["apps"], ["apps"], ["P06"],
               pairs=[("iso", 96, 4000)], pairclause="C06.pair"),
     "C07": _p(["C07.a", "C07.b", "C07.c", "C07.d", "C07.e"], [("core", 9, 12), ("apps", 8, 11)],
@@ -148,11 +159,11 @@ PLAN = {
                    ["crash", "usage", "mailbox", "script2", "crowd"], ["P09"]),
                 variants={"crash": [dict(), dict(usage=True)]}),
     "C10": dict(_p(["C10.a", "C10.b", "C10.c", "C13.c"], [("crash", 8, 11), ("crashu", 7, 10)], ["crash", "crashu"],
-                   ["crash"], ["P10", "P13"], pairs=[("resume", 120, 4000)], pairclause="C10.resume"),
-                variants={"crash": [dict(), dict(usage=True)]}),
+                   ["crash", "boundaries"], ["P10", "P13"], pairs=[("resume", 120, 4000)], pairclause="C10.resume"),
+                variants={"crash": [dict(), dict(usage=True)], "boundaries": [dict(), dict(usage=True)]}),
     "C11": _p([], [("time", 8, 11)], ["time"], [], ["P01", "P02"],
               pairs=[("restart", 120, 4000)], pairclause="C11.pair"),
-    "C12": _p(["C12.a", "C12.b"], [("time", 8, 11), ("time2", 7, 10)], ["time", "time2"],
+    "C12": _p(["C12.a", "C12.b", "C12.c"], [("time", 8, 11), ("time2", 7, 10)], ["time", "time2"],
               ["time", "fanout", "script", "script2"], ["P12"]),
     "C13": _p(["C13.a", "C13.b", "C13.c"], [("time", 8, 11), ("time2", 7, 10)], ["time", "time2"],
               ["time", "crowd", "mailbox", "script", "script2"], ["P13"]),
@@ -176,6 +187,7 @@ PLAN = {
     "C17": dict(_p(["C17.a", "C17.b", "C17.c", "C17.d", "C17.e", "C17.f", "C17.g"], [("proto", 7, 10), ("apps", 8, 11)],
                    ["proto"], ["proto", "apps", "script", "script2"], ["P17"]),
                 # the configured welcome notices: none, a message of the day, an error, a version, all three
+                witness_mc=[("apps", 8, "W_F2")],
                 variants={"proto": [dict(), dict(welcome={"motd": "hello \u2603"}),
                                     dict(welcome={"error": "go away", "current_cli_version": "0.12.0"}),
                                     dict(welcome={"motd": "m", "error": "e", "current_cli_version": "v"}, usage=True)]}),
@@ -190,7 +202,7 @@ PAIR_BASE = dict(
     LongNames='{"1000"}', OtherNames='{"x"}', ClientMbox='{"m1"}', GenMbox='<- cGen2', EXP='11', PERIOD='5',
     AllowList='TRUE', UsageOn='TRUE', Blur='0', Welcome='"w0"', MsgIds='{"~"}', AddMsgs='<- cAdd1',
     MoodSet='{"~"}', ClaimNames='{"1"}', PickSet='{"1", "2"}', AdvanceSteps='{5, 6}', MaxTime='17',
-    MaxMsgs='1', MaxDepth='8', Stringified='{}')
+    MaxMsgs='1', MaxDepth='8', Stringified='{}', BadMoods='{}')
 PAIR_INST = {
     "iso": dict(Apps='{"a1", "a2"}', AppOrder='<- cAppOrder2'),
     "restart": dict(),
@@ -217,7 +229,7 @@ def paircfg_cfg_text(alt, depth):
     c = dict(PAIR_BASE)
     for k in ("AppB", "Spare", "AllowList", "UsageOn", "Blur", "MsgIds", "MaxDepth", "Stringified"):
         c.pop(k, None)
-    c.update(AL1="TRUE", US1="FALSE", BL1="0", AL2=alt[0], US2=alt[1], BL2=alt[2], ClaimNames='{"1", "x"}',
+    c.update(AL1="TRUE", US1="FALSE", BL1="0", AL2=alt[0], US2=alt[1], BL2=alt[2], ClaimNames='{"1", "x"}', BadMoods="{}",
              AdvanceSteps="{5, 12}", MaxDepth=str(depth))
     lines = ["SPECIFICATION CSpec", "CONSTANTS"]
     for k, v in c.items():
